@@ -564,8 +564,8 @@ fn witnesses() -> Vec<(String, String, usize)> {
     // row_groups list: hand-written reader in file/metadata/thrift/mod.rs
     w(format!("C08 tmeta {}160019fcffffffff07", hex(FOOTER_HEAD)), "op:tmeta witness:thrift-rowgroup-capacity nt");
     // skip of a list<bool> with 2^31-1 elements in an unknown field (id 15): loop without consuming input
-    // (two such fields: 16 bytes of input, 2^32 iterations)
-    w(format!("C08 tmeta {}1600190c{}", hex(FOOTER_HEAD), "f9f1ffffffff07f9f1ffffffff0700"), "op:tmeta witness:thrift-skip-bool-list nt");
+    // (six such fields: 48 bytes of input, 6 * 2^31 iterations)
+    w(format!("C08 tmeta {}1600190c{}00", hex(FOOTER_HEAD), "f9f1ffffffff07".repeat(6)), "op:tmeta witness:thrift-skip-bool-list nt");
     // BitReader::get_vlq_int assert
     w("C08 bvlq ffffffffffffffffffffff".into(), "op:bvlq witness:bitreader-vlq-overlong nt");
     w("C08 delta ffffffffffffffffffffff01".into(), "op:delta witness:bitreader-vlq-overlong nt");
@@ -647,7 +647,7 @@ fn main() {
     }
     let args = parse_args();
     let mut sink = Sink::new(&args.out);
-    let timeout = Duration::from_secs(if args.tier == "thorough" { 20 } else { 8 });
+    let timeout = Duration::from_secs(if args.tier == "thorough" { 30 } else { 10 });
     let mut w = Worker::spawn(timeout);
     if args.mode == "replay" {
         for line in read_cases(args.replay.as_ref().unwrap()) {
